@@ -129,6 +129,8 @@ def finish(ck: Check, tier: str, t0: float, explanation: str, assumptions: list[
             # rewrites that need (light) type facts: container truthiness -> len(), X.sort() -> sorted(), module constants,
             # try/except KeyError -> membership tests, TypedDict constructors -> dict displays
             "type_fact_rewrites": getattr(ck.prog.repo, "type_normalisation", {}),
+            # structural rewrites of single functions (counts; zero entries omitted)
+            "structural_rewrites": getattr(ck.prog.repo, "local_rewrites", {}),
         }
         samples = [o.as_dict() for o in ck.obs[:40]]
         # make sure every rule is represented among the samples
